@@ -1,6 +1,7 @@
 package drivers
 
 import (
+	"bufio"
 	"encoding/json"
 	"fmt"
 	"os"
@@ -21,16 +22,39 @@ func envInt(name string, def int) int {
 	return def
 }
 
-type runLine struct {
+// RunLine is one line of worker output: the outcome of one simulated run.
+type RunLine struct {
 	Run       int               `json:"run"`
+	Job       int               `json:"job"`
 	Steps     int               `json:"steps"`
 	Incs      int               `json:"incs"`
 	Sim       float64           `json:"sim_s"`
 	LogHash   string            `json:"log"`
+	StateHash string            `json:"state"`
+	Writes    int               `json:"writes"`
+	Hooks     int               `json:"hooks"`
+	Faults    map[string]int    `json:"faults,omitempty"`
+	Probes    map[string]int    `json:"probes,omitempty"`
 	Violation string            `json:"violation,omitempty"`
+	Prop      string            `json:"prop,omitempty"`
 	Class     string            `json:"class,omitempty"`
+	VStep     int               `json:"vstep,omitempty"`
+	Sig       map[string]string `json:"sig,omitempty"`
 	Budget    string            `json:"budget,omitempty"`
 	Cfg       map[string]string `json:"cfg,omitempty"`
+	TapeLen   int               `json:"tape_len"`
+	Tape      []uint32          `json:"tape,omitempty"`
+	Log       []string          `json:"eventlog,omitempty"`
+	Sample    []string          `json:"sample,omitempty"`
+}
+
+// Job is one unit of work read from DST_JOBS (one JSON object per line).
+type Job struct {
+	ID   int      `json:"id"`
+	Seed uint64   `json:"seed"`
+	Run  int      `json:"run"`
+	Tape []uint32 `json:"tape"` // non-nil: replay this tape instead of generating from (seed, run)
+	Full bool     `json:"full"` // include tape and event log in the output
 }
 
 func TestWorker(t *testing.T) {
@@ -40,34 +64,84 @@ func TestWorker(t *testing.T) {
 	}
 	runtime.GOMAXPROCS(envInt("DST_PROCS", 1))
 	runtime.MemProfileRate = 0
+	out := bufio.NewWriter(os.Stdout)
+	defer out.Flush()
+	enc := json.NewEncoder(out)
 	if !qm.Probe() {
-		fmt.Println(`{"fatal":"workqueue metrics provider was not installed by dst/qm"}`)
+		fmt.Fprintln(out, `{"fatal":"workqueue metrics provider was not installed by dst/qm"}`)
+		out.Flush()
 		os.Exit(2)
 	}
 	mk := sim.Scenarios[prop]
 	if mk == nil {
-		fmt.Printf("{\"fatal\":\"unknown property %s\"}\n", prop)
+		fmt.Fprintf(out, "{\"fatal\":\"unknown property %s\"}\n", prop)
+		out.Flush()
 		os.Exit(2)
 	}
-	seed := uint64(envInt("DST_SEED", 1))
-	from, to := envInt("DST_FROM", 0), envInt("DST_TO", 1)
-	verbose := os.Getenv("DST_VERBOSE") != ""
-	enc := json.NewEncoder(os.Stdout)
-	for run := from; run < to; run++ {
-		tape := sim.NewSeedTape(seed, uint64(run))
-		res := sim.RunScenario(t, mk(), tape, seed*1000003+uint64(run))
-		l := runLine{Run: run, Steps: res.Steps, Incs: res.Incs, Sim: res.SimSeconds, LogHash: res.LogHash, Cfg: res.World.Cfg}
+	var jobs []Job
+	if jf := os.Getenv("DST_JOBS"); jf != "" {
+		f, err := os.Open(jf)
+		if err != nil {
+			fmt.Fprintf(out, "{\"fatal\":%q}\n", err.Error())
+			out.Flush()
+			os.Exit(2)
+		}
+		sc := bufio.NewScanner(f)
+		sc.Buffer(make([]byte, 1<<20), 1<<26)
+		for sc.Scan() {
+			var j Job
+			if err := json.Unmarshal(sc.Bytes(), &j); err == nil {
+				jobs = append(jobs, j)
+			}
+		}
+		f.Close()
+	} else {
+		seed := uint64(envInt("DST_SEED", 1))
+		for run := envInt("DST_FROM", 0); run < envInt("DST_TO", 1); run++ {
+			jobs = append(jobs, Job{ID: run, Seed: seed, Run: run, Full: os.Getenv("DST_VERBOSE") != ""})
+		}
+	}
+	sample := envInt("DST_SAMPLE", 0)
+	for _, j := range jobs {
+		// announce the job first: if the process dies the runner knows which one was in flight
+		fmt.Fprintf(out, "{\"start\":%d}\n", j.ID)
+		out.Flush()
+		var tape *sim.Tape
+		if j.Tape != nil {
+			tape = sim.NewReplayTape(j.Tape)
+		} else {
+			tape = sim.NewSeedTape(j.Seed, uint64(j.Run))
+		}
+		res := sim.RunScenario(t, mk(), tape, j.Seed*1000003+uint64(j.Run))
+		w := res.World
+		l := RunLine{Run: j.Run, Job: j.ID, Steps: res.Steps, Incs: res.Incs, Sim: res.SimSeconds, LogHash: res.LogHash,
+			StateHash: w.AbstractState(), Writes: w.CountWrites(), Hooks: len(w.Hooks), Faults: w.FaultsFired, Probes: w.Probes,
+			Cfg: w.Cfg, TapeLen: len(res.Tape)}
 		if res.Violation != nil {
 			l.Violation = res.Violation.String()
+			l.Prop = res.Violation.Prop
 			l.Class = res.Violation.Class
+			l.VStep = res.Violation.Step
+			l.Sig = res.Violation.Sig
 		}
 		if res.Budget {
 			l.Budget = res.BudgetAt
 		}
+		if j.Full {
+			l.Tape = res.Tape
+			l.Log = w.Log
+		}
+		if sample > 0 && j.ID < sample {
+			l.Sample = w.ShortLog(40)
+		}
 		enc.Encode(l)
-		if verbose {
-			for _, line := range res.World.Log {
-				fmt.Println(line)
+		out.Flush()
+		if os.Getenv("DST_VERBOSE") != "" {
+			for _, line := range w.Log {
+				fmt.Fprintln(out, line)
+			}
+			if os.Getenv("DST_DUMP") != "" {
+				fmt.Fprintln(out, w.DumpStore(os.Getenv("DST_DUMP")))
 			}
 		}
 		runtime.GC()
